@@ -7,6 +7,7 @@ import (
 	"time"
 
 	"github.com/jech/storrent/config"
+	"github.com/jech/storrent/known"
 	"github.com/jech/storrent/tor"
 	"github.com/jech/storrent/zzsim/refwire"
 	"github.com/jech/storrent/zzsim/simnet"
@@ -19,6 +20,7 @@ import (
 func init() {
 	Register(&Scenario{
 		Name: "magnet", Knobs: true, Props: []string{"C12"}, CrashTo: "C12",
+		Also:    map[string]int{"C18": 1}, // C18: what a proxied magnet torrent tells the peers it dials
 		Horizon: 3 * time.Hour, MaxSteps: 2000000, Weight: 1, Main: magnetMain,
 	})
 }
@@ -152,16 +154,44 @@ func magnetMain(rc *RunCtx) {
 	spec.InfoHash = h[:]
 	nb := (len(info) + 16383) / 16384
 	config.SetIdleRate(0)
-	t, err := w.AddTorrent(spec, true, "")
+	// one run in seven (by run index, so that the choice stream of the
+	// others is what it was): the magnet link is added behind a proxy.  Such
+	// a torrent refuses incoming connections, so its peers are dialled; what
+	// it tells them while and after it learns its metadata is C18's subject.
+	proxy := ""
+	if rc.Index%7 == 6 {
+		proxy = "socks5://127.0.0.1:9050"
+	}
+	t, err := w.AddTorrent(spec, true, proxy)
 	if err != nil {
 		rc.Fail("C12", "setup", "", "AddTorrent(magnet): %v", err)
 		return
+	}
+	join := func(p *RefPeer) {
+		if proxy != "" {
+			t.AddKnown(p.Addr, nil, "", known.Tracker)
+		} else {
+			p.Connect()
+		}
+	}
+	if proxy != "" {
+		defer func() {
+			for _, d := range w.Dials {
+				if d.Via != proxy {
+					rc.Fail("C18", "proxy-bypass", "magnet-dial-"+d.Network, "a proxied magnet torrent dialled %s %s via %q", d.Network, d.Addr, d.Via)
+					break
+				}
+			}
+		}()
 	}
 	w.Link = func() (simnet.LinkCfg, simnet.LinkCfg) { return drawSysLink(st) }
 	nhonest := 1 + st.Choice(3)
 	nhostile := st.Choice(4)
 	if degenerate != 0 {
 		nhostile = st.Choice(2)
+	}
+	if proxy != "" {
+		nhostile = 0 // they could not get in
 	}
 	rc.SetSample("setup", fmt.Sprintf("info dictionary of %d bytes (%d blocks, %d mod 16384), %s; %d honest peers, %d hostile", len(info), nb, len(info)%16384, what, nhonest, nhostile))
 	var honest []*RefPeer
@@ -175,7 +205,7 @@ func magnetMain(rc *RunCtx) {
 		d := time.Duration(st.Choice(20000)) * time.Millisecond
 		simrt.GoNamed("arrive-"+cfg.Name, func() {
 			simrt.Sleep(d)
-			p.Connect()
+			join(p)
 		})
 	}
 	hostileActive := nhostile > 0
@@ -307,12 +337,32 @@ func magnetMain(rc *RunCtx) {
 		simrt.Sleep(time.Second)
 		for _, p := range honest {
 			if p.Closed && p.CloseErr != "" {
-				p.Connect()
+				join(p)
 			}
 		}
 	}
 	check()
 	if rc.Failed() {
+		return
+	}
+	if proxy != "" {
+		// when and how often the system dials is not C12's business: no
+		// liveness verdict here.  What the peers were told is C18's.
+		simrt.Sleep(30 * time.Second)
+		for _, p := range honest {
+			if p.Inbound && p.Ready {
+				rc.Fail("C18", "incoming-accepted", "magnet", "a proxied magnet torrent accepted the incoming connection of %s", p.Cfg.Name)
+			}
+			for k, h := range p.SysExtAll {
+				if h.HasV || h.HasP || h.IPv6 != nil {
+					rc.Fail("C18", "handshake-reveals", "magnet", "extended handshake %d of %d that a proxied magnet torrent sent to %s (metadata complete now: %v) carries v=%q p=%d ipv6=%x", k+1, len(p.SysExtAll), p.Cfg.Name, t.InfoComplete(), h.V, h.P, h.IPv6)
+					break
+				}
+			}
+		}
+		if t.InfoComplete() {
+			simrt.Probe("proxied-magnet-completed")
+		}
 		return
 	}
 	if chClosed(t.Done) && !t.InfoComplete() {
